@@ -77,6 +77,11 @@ func headTrial(c *core.Ctx, id string, m chanMode, msgs []headMsg, rng *rand.Ran
 		wrapped = fmt.Sprintf(" on NewTransport(conn,%d,%d)", wv[0], wv[1])
 		c.Count("head_sequences_on_buffering_wrapper", 1)
 	}
+	lateSender := m.mode != mon.Sync && ro.Wrap == nil && rng.Intn(2) == 0
+	if lateSender {
+		// the background sender starts late (busy executor): everything written meanwhile waits in the queue
+		ro.Plan = append(ro.Plan, mon.Step{At: "x1", Occ: 1, Kind: mon.Gate, Until: "go", UntilCount: 1, Timeout: 20 * time.Millisecond})
+	}
 	rig := mon.NewRig(ro)
 	defer rig.Dispose()
 
@@ -113,8 +118,22 @@ func headTrial(c *core.Ctx, id string, m chanMode, msgs []headMsg, rng *rand.Ran
 			sm.Carrier, sm.Size, sm.Content = hm.car.name, len(hm.data), hm.kind
 		}
 		sm.WriteOK = rig.Ch.Write(msg) == nil
+		// Write has returned: byte-slice messages were snapshotted, the memory is the caller's again
+		switch v := msg.(type) {
+		case []byte:
+			for i := range v {
+				v[i] = 0xEE
+			}
+		case [][]byte:
+			for _, part := range v {
+				for i := range part {
+					part[i] = 0xEE
+				}
+			}
+		}
 		det.Messages = append(det.Messages, sm)
 	}
+	rig.S.Mark("go")
 	if m.mode != mon.Sync && !rig.Ex.WaitOutstanding(1, watchdog) {
 		c.Inconclusive(id, "watchdog: sender did not finish")
 		return
